@@ -168,8 +168,12 @@ func run(c *harness.Case) {
 	universe := append([]string(nil), names...)
 	R.Shuffle(len(universe), func(i, j int) { universe[i], universe[j] = universe[j], universe[i] })
 	universe = universe[:4+R.Intn(len(universe)-3)]
-	if c.Thorough() && R.Intn(4) == 0 {
-		for i := 0; i < 30; i++ {
+	// big clusters: the production replica count with 20..60 nodes (tables of several thousand virtual
+	// nodes, where size-dependent code paths such as incremental sorting would kick in)
+	big := c.Index%8 == 0 || c.Index%8 == 4 || (c.Thorough() && R.Intn(4) == 0)
+	if big {
+		universe = append([]string(nil), names...)
+		for i, n := 0, 10+R.Intn(50); i < n; i++ {
 			universe = append(universe, fmt.Sprintf("big-%d", i))
 		}
 	}
@@ -201,6 +205,23 @@ func run(c *harness.Case) {
 	}
 
 	mutations, lookups, removedThenReinserted, sweeps := 0, 0, 0, 0
+	if big {
+		// the cluster is learned in bulk, then one lookup sorts the table; churn follows in small batches
+		for _, k := range universe {
+			if R.Intn(10) < 8 {
+				serial++
+				ring.Insert(k, val{k, serial})
+				model[k] = serial
+				ops = append(ops, fmt.Sprintf("insert %s v%d", k, serial))
+				c.Count("inserts", 1)
+			}
+		}
+		if v, ok := ring.Lookup("warm-up"); !ok || model[v.Name] != v.Ver {
+			c.Violationf("owner-not-member", detail(), "Lookup after bulk insert returned %+v,%v", v, ok)
+			return
+		}
+		c.Count("big_cluster_cases", 1)
+	}
 	pendingRemoved := map[string]bool{} // removed since the last lookup (sweep not yet run)
 	targetLookups := c.Pick(200, 300)
 	sizes := map[int]bool{}
@@ -208,6 +229,9 @@ func run(c *harness.Case) {
 		// 0..6 mutations
 		nm := R.Intn(7)
 		bias := []int{25, 55, 85}[R.Intn(3)] // shrinking, steady or growing block
+		if big {
+			bias = []int{45, 50, 55}[R.Intn(3)] // keep the cluster large
+		}
 		for m := 0; m < nm; m++ {
 			k := universe[R.Intn(len(universe))]
 			x := 98
@@ -243,6 +267,9 @@ func run(c *harness.Case) {
 				delete(model, k)
 				ops = append(ops, "remove "+k)
 			default: // remove everything (ring goes empty with pending deletes)
+				if big && R.Intn(4) != 0 {
+					break
+				}
 				for _, mk := range members(model) {
 					ring.Remove(mk)
 					pendingRemoved[mk] = true
